@@ -637,6 +637,53 @@ def make_group(tree, hooks, with_vector=True, shape=(4,), members=("a", "b", "v"
     return g
 
 
+def check_group_slice_views(run, tree):
+    """dg[i:j] is a group of VIEWS: every member (and every Vector component) is the member's own buffer indexed with the slice itself - an
+    index array built from the slice (numpy.arange(n)[i:j]) selects the same rows but copies them, and in-place updates through the
+    sub-group no longer reach the Arrays shared with the parent group."""
+    hooks = core_hooks({"numpy.arange": lambda *a, **k: RawTok(("arange",) + tuple(getattr(x, "origin", x) for x in a), (a[0] if len(a) == 1 and isinstance(a[0], int) else "sel",))})
+    ci = tree.cls(DG_Q)
+    gi = tree.method(ci, "__getitem__")
+    run.analysed(gi)
+    for label, sl in (("dg[1:3]", slice(1, 3)), ("dg[::2]", slice(None, None, 2)), ("dg[:2]", slice(None, 2))):
+        construct = "%s.__getitem__[%s: members are views]" % (DG_Q, label)
+        try:
+            g = make_group(tree, hooks)
+            before = {k: member_origin(tree, hooks, v) for k, v in g._attrs["_container"].items()}
+            try:
+                sub = call_method(tree, hooks, g, "__getitem__", sl)
+            except (Raised, ProgramRaised) as e:
+                run.violated(construct, gi.where(), "raises %s" % e, "slicing a group")
+                continue
+            problems = []
+            if not (isinstance(sub, PyObj) and sub._cls.qual == DG_Q):
+                problems.append("returns %r" % (sub,))
+            else:
+                key = slice_key((4,), sl)
+                for k, v in sub._attrs["_container"].items():
+                    got = member_origin(tree, hooks, v)
+                    want = {c: ("idx", o, key) for c, o in before[k].items()} if isinstance(before[k], dict) else ("idx", before[k], key)
+                    if unintern_deep(got) != unintern_deep(want):
+                        problems.append("member %r is %r (required the view %r of the member's own buffer)" % (k, got, want))
+            run.ob(construct, not problems, gi.where(), "; ".join(problems[:2]) or "every member is indexed with the slice itself (a view)",
+                   "sub = dg[1:4]; sub['a'] *= 2 no longer changes dg['a'] (the slice was turned into an index array: the members of the sub-group are copies)")
+        except ERR as e:
+            run.unresolved(construct, gi.where(), "cannot fold: %s" % e)
+
+
+def unintern_deep(o):
+    from .core_models import unintern
+    try:
+        o = unintern(o)
+    except Exception:
+        pass
+    if isinstance(o, dict):
+        return {k: unintern_deep(v) for k, v in o.items()}
+    if isinstance(o, tuple):
+        return tuple(unintern_deep(x) for x in o)
+    return o
+
+
 def member_origin(tree, hooks, m):
     if isinstance(m, PyObj):
         return {c: a.origin for c, a in vector_components(tree, m, hooks).items()}
